@@ -1,7 +1,7 @@
 #!/bin/bash
-# runs every configured check (quick tier) on the current tree; prints one summary line per property
+# runs every claimed check (quick tier by default) on the current tree; prints one summary line per property
 cd /verif
-for p in $(python3 -c "import json;print(' '.join(sorted(json.load(open('props.json')))))"); do
+for p in $(python3 -c "import json;print(' '.join(sorted(json.load(open('tools/checks.json')))))"); do
   out=$(bin/vcheck check --property $p --tier ${1:-quick} 2>&1); rc=$?
   echo "$p exit=$rc $(echo "$out" | grep '^property' | cut -c1-120) viol=$(echo "$out" | grep -c '^VIOLATION')"
   echo "$out" | grep '^VIOLATION' | cut -c1-260 | head -3
